@@ -271,6 +271,7 @@ def gen_step(rng, fmt, dest_state, overwrite, fault, encoding, names, idx):
     step['prep'] = prep
     step['dest'] = name
     step['overwrite'] = overwrite if (overwrite or rng.chance(0.5)) else None
+    step['pathlib'] = rng.chance(0.25)
     step['label'] = label
     return step
 
@@ -409,6 +410,11 @@ class Run:
             self.violations.append(v)
 
     def call_write(self, step, dest_path, trace):
+        if step.get('pathlib') and step['format'] is not None:
+            # the destination as an os.PathLike object (only with the format
+            # given: extension-based identification documents str names)
+            import pathlib
+            dest_path = pathlib.Path(dest_path)
         regs = [build(r) for r in step['regions']]
         kw = {k: build(v) for k, v in step['kwargs'].items()}
         if step['overwrite'] is not None:
@@ -816,6 +822,7 @@ def describe(plan, res):
         lines.append(
             f'  step {i}: prep[{prep}] {s["api"]}.write({s["dest"]!r}, '
             f'format={s["format"]!r}, overwrite={s["overwrite"]!r}, '
+            f'pathlib={bool(s.get("pathlib") and s["format"] is not None)}, '
             f'**{json_s(s["kwargs"])}) fmt={s["fmt"]} regions={regs} '
             f'fault={json_s(s["label"])}')
         e = evs.get(i)
